@@ -173,7 +173,56 @@ func c07xRun(res *hx.Result, suite string, cl c07xCell, e *ruleguard.Engine, t *
 		}
 	}
 	res.Dist(suite + ":run:ok")
+	// the same run with the debug settings of the context (Debug = the rule's group, so that every rejection goes through
+	// rulesRunner.reject and prints its captures; DebugImports): no panic, the same reports
+	c07DebugTick++
+	if c07Thorough || c07DebugTick%3 == 0 {
+		var out []string
+		dopts := opts
+		dopts.Debug, dopts.DebugImports, dopts.DebugOut = "r", true, &out
+		if gs := e.LoadedGroups(); len(gs) > 0 {
+			dopts.Debug = gs[0].Name
+		}
+		if c07DebugTick%5 == 0 {
+			dopts.Debug = "nosuchgroup"
+		}
+		drs, dpk, dframe, derr := hx.Run(e, t, dopts)
+		din := map[string]interface{}{}
+		for k, v := range in {
+			din[k] = v
+		}
+		din["Debug"], din["DebugImports"] = dopts.Debug, true
+		switch {
+		case derr != nil:
+			res.Errorf("c07 %s: Run with debug settings returned an error: %v", suite, derr)
+		case dpk != "":
+			res.Violate(hx.Violation{Signature: "run:" + dpk + "@" + dframe + ":debug-settings", What: "Run panics when RunContext.Debug / DebugPrint / DebugImports are set", Input: din, Impl: dpk + " at " + dframe, Spec: "no panic"})
+			res.Dist(suite + ":debug-run:PANIC")
+		case c07ReportsKey(drs) != c07ReportsKey(rs):
+			res.Violate(hx.Violation{Signature: "run:debug-settings-change-the-reports@" + cl.shape, What: "the reports differ when the debug settings are on", Input: din, Impl: c07ReportsKey(drs), Spec: c07ReportsKey(rs)})
+			res.Dist(suite + ":debug-run:DIFFERENT-REPORTS")
+		default:
+			res.Dist(suite + ":debug-run:ok")
+			if c07Explained(out) {
+				res.Dist(suite + ":debug-run:explained-a-rejection")
+			}
+		}
+	}
 	return rs, true
+}
+
+var (
+	c07Thorough  bool
+	c07DebugTick int
+)
+
+func c07ReportsKey(rs []hx.Report) string {
+	var sb strings.Builder
+	for _, r := range rs {
+		sb.WriteString(r.String())
+		sb.WriteString("\n")
+	}
+	return sb.String()
 }
 
 func c07xInput(cl c07xCell, t *c07xTarget, trunc int, gover, state string) map[string]interface{} {
@@ -214,4 +263,13 @@ func c07xReportsKey(rs []hx.Report) string {
 		fmt.Fprintf(&sb, " slice=%d/%d\n", r.SliceKind, r.SliceLen)
 	}
 	return sb.String()
+}
+
+func c07Explained(out []string) bool {
+	for _, s := range out {
+		if strings.Contains(s, "rejected by") {
+			return true
+		}
+	}
+	return false
 }
